@@ -347,6 +347,11 @@ func prepare() {
 		"SELECT a FROM (SELECT b FROM u",
 		"SELECT a FROM t WHERE b BETWEEN (SELECT 1 FROM) AND 2",
 		"UPDATE t SET a = (SELECT FROM u) WHERE b = 1",
+		"SELECT a FROM t WHERE a = 1 OR b IN (1, )",
+		"SELECT a FROM t WHERE a = 1 OR f(b, )",
+		"SELECT a FROM t WHERE x = 1 AND (y = 2 OR )",
+		"SELECT a FROM t WHERE a + (b * ) > 1",
+		"SELECT a FROM t ORDER BY a, (b + )",
 		parens(dp + 1),
 		funcs(df + 3),
 		"SELECT a FROM " + wrapN("(SELECT a FROM ", "t WHERE )", ") s", 5),
@@ -389,12 +394,16 @@ func prepare() {
 		"  \t SELECT 'x'",
 		"\n\n\t\tSELECT\n\t a",
 		"        SELECT 2",
+		"SELECT '" + strings.Repeat("long string ", 400) + "' FROM t",
+		"SELECT \"" + strings.Repeat("q", 5000) + "\" FROM t",
 	}
 	tokSpell["commented"] = []string{
 		"SELECT a -- first\nFROM t /* block\n comment */ WHERE\n a = 1 -- last",
 		"\t/* c */ SELECT 1",
 		"-- only\n   SELECT 1 /* x */",
 		"/* a */ /* b */ x",
+		"SELECT /* " + strings.Repeat("long comment ", 400) + "*/ a FROM t",
+		"-- " + strings.Repeat("long line comment ", 300) + "\nSELECT 1",
 	}
 	tokSpell["badml"] = []string{
 		"SELECT a -- c1\nFROM t\nWHERE a = 'unterminated",
@@ -770,7 +779,9 @@ func replayTokenizer(h []pstep, v int) {
 			if got != want {
 				fail(i, "result-differs-from-fresh|tokenizer|"+s.Op+"|"+diffKind(got, want), "the outcome of a call depends only on its input and the holder's configuration", got, want)
 			}
-			if s.Exp != nil && out != s.Exp.Out {
+			// how many polls a run makes (and therefore whether a context firing at the k-th poll cancels it) is
+			// not fixed by the property: for CtxFire the fresh instance decides
+			if s.Exp != nil && out != s.Exp.Out && !(s.Op == "CtxFire" && got == want) {
 				fail(i, "outcome-class-differs-from-spec|tokenizer|"+s.Op+"|"+s.In, "call outcome equals Res(op, input, holder dialect) of TokInst.tla", out, s.Exp)
 			}
 		}
